@@ -126,4 +126,13 @@ theorem rt_tyok_jsonSafe {W : World} {DW : DumpWorld} {C : Codec} {cfg : Cfg} {T
             simp [jsonSafeAll, hn b hb, ih]
   | union _ _ _ ih => simp only [jsonSafe]; exact rt_jsonSafeAll_iff.2 ih
 
+/-- a codec whose dumped forms JSON leaves alone satisfies the JSON codec law -/
+theorem rt_scalarJson_of_fixed {W : World} {C : Codec} (hS : ScalarRT W C)
+    (hfix : ∀ name x d d', C.inhabits name x → W.scalarDump name x = .ok d →
+      jsonTravel d = some d' → d' = d) : ScalarJson W C := by
+  intro s name x d d' hi hd hj
+  obtain ⟨d0, h1, h2⟩ := hS.rt s name x hi
+  rw [hd] at h1; cases h1
+  rw [hfix name x d d' hi hd hj]; exact h2
+
 end Adaptix.Morph
